@@ -143,6 +143,35 @@ def judge(sh: Shard, stem, ref, rig, block, value, expect, neighbours, keyp):
         sh.violation(f"{keyp}:paths-differ", f"{stem}/{ref.tag}: blocking and awaitable paths emit different device writes {tuples}", {"module": stem, "item": ref.tag, "value": value, "tuples": {k: list(v) for k, v in tuples.items()}})
 
 
+def overlap_witness(sh, stem, rig, block, ref, other, shared, r):
+    """Two items whose fields partially overlap: drive a write to `ref` and watch `other`."""
+    a, b = sorted((ref.tag, other.tag))
+    key = f"C02:overlap:{stem}/{a}~{b}"
+    sh.count("partial_overlaps_seen")
+    if ref.rw is None:
+        return
+    for value, expect in domain(ref):
+        for prior in (0, (1 << (8 * ref.width)) - 1, r.randrange(1 << (8 * ref.width))):
+            blk = block[: ref.pos] + prior.to_bytes(ref.width, "big") + block[ref.pos + ref.width :]
+            rig.set_block(blk)
+            try:
+                before = rig.asyn.accessors[other.tag].value
+                cap, exc = rig.write("async/GeckoAsyncStructure", ref.tag, value)
+                if exc is not None or len(cap) != 1:
+                    continue
+                _, pos, length, val = cap[0]
+                rig.set_block(tables.apply_write(blk, pos, length, val))
+                after = rig.asyn.accessors[other.tag].value
+            except Exception:  # noqa
+                continue
+            finally:
+                rig.set_block(block)
+            sh.evaluations += 1
+            if after != before:
+                sh.violation(key, f"{stem}: items {ref.tag} and {other.tag} share bits without one containing the other; writing {ref.tag}={value!r} changed {other.tag} from {before!r} to {after!r}", {"module": stem, "written": ref.tag, "other": other.tag, "value": value, "prior_word": prior, "shapes": [ref.shape(), other.shape()]})
+                return
+
+
 def temp_cases(sh, stem, ref, rig, block, r, keyp):
     """Temperature items: representable readings write back exactly (both units)."""
     if "TempUnits" not in rig.asyn.accessors:
@@ -231,6 +260,10 @@ def shard_modules(sh: Shard, stems, seed, tier):
                     m2 = r2.field_mask << (8 * (base + span - (r2.pos + r2.width)))
                     if m1 & m2 == 0:
                         share.append(t2)
+                    elif m1 != m2 and (m1 & m2) not in (m1, m2):
+                        # neither the same field nor one nested in the other: two items that own
+                        # some bits each and share others - a write to one must change the other
+                        overlap_witness(sh, stem, rig, block, ref, r2, m1 & m2, r)
             share = share[:6]
             for value, expect in domain(ref):
                 for prior in priors(ref, r):
